@@ -1,5 +1,6 @@
 """Helpers shared by the rule modules."""
 import os
+import re
 import sys
 
 sys.path.insert(0, os.path.dirname(os.path.dirname(os.path.abspath(__file__))))
@@ -1085,3 +1086,59 @@ def write_adaptors_forward_flush(ctx, F, rid, files=None):
                   'this Write adaptor passes the bytes on to its inner writer but its flush() does not flush that writer: a BufWriter underneath keeps '
                   'its tail in memory after the caller flushed and synced, and writes it on drop - after the file was renamed into place', loc(fb, fb.lo))
     return n
+
+
+def removes_own_staging(F, body, op):
+    """`remove_file(self.path)` of a crate struct that was built around a file it created: some constructor of that struct fills
+    the field from the very value a content creator / open-for-write in the same function was given.  (The clean-up half of a
+    staging handle: what is removed is what this code created, never a file of the plan.)"""
+    import tables
+    fl = flow_of(body)
+    hits = []
+    for o in fl.origins(op):
+        fields = [e for e in o.path if not e.startswith('@')]
+        if o.kind not in ('param', 'upvar') or not fields:
+            continue
+        ty = None
+        if o.kind == 'param':
+            ty = body.local_ty(o.key)
+        elif o.key is not None:
+            # the captured value is moved into a local of the same name at the top of an async fn's body
+            name = body.upvars.get(int(o.key))
+            for i in range(len(body.locals)):
+                if name and body.local_name(i) == name:
+                    ty = body.local_ty(i)
+                    break
+        if not ty:
+            return False
+        T = re.sub(r"<.*$", '', ty.replace('&', '').replace('mut ', '').strip())
+        if T not in F.adts:
+            return False
+        hits.append((T, fields[0]))
+    if not hits:
+        return False
+    for T, f in hits:
+        found = False
+        for p, cb in F.bodies.items():
+            cfl = None
+            for blk in cb.blocks:
+                for st in blk['stmts']:
+                    rv = st['rv']
+                    if rv['k'] == 'agg' and rv.get('ak') == 'adt' and norm(rv.get('adt') or '') == T and f in (rv.get('fields') or []):
+                        cfl = cfl or flow_of(cb)
+                        fop = rv['ops'][rv['fields'].index(f)]
+                        slots = param_slots(F, cb, cfl.origins(fop))
+                        if not slots:
+                            continue
+                        top = cb.path.split('::{')[0]
+                        for q, qb in F.bodies.items():
+                            if q.split('::{')[0] != top:
+                                continue
+                            qfl = flow_of(qb)
+                            for kb, kt in qfl.calls(lambda c: c in tables.CONTENT_CREATORS):
+                                pos = tables.CONTENT_CREATORS[callee(kt)]
+                                if pos < len(kt['args']) and param_slots(F, qb, qfl.origins(kt['args'][pos])) == slots:
+                                    found = True
+        if not found:
+            return False
+    return True
